@@ -77,7 +77,7 @@ Frame0(regs) == [snap |-> regs, retpc |-> 0, callnode |-> 0, dead |-> [r \in Reg
 
 MInit(v, choice, fuel) ==
   [pc |-> 1, reg |-> InitRegs(v), mem |-> <<>>, csrw |-> <<>>, frames |-> << Frame0(InitRegs(v)) >>,
-   dead |-> [r \in Regs |-> FALSE], deadat |-> [r \in Regs |-> ""], last |-> 0, halted |-> FALSE, why |-> "", viol |-> <<>>,
+   dead |-> [r \in Regs |-> FALSE], last |-> 0, halted |-> FALSE, why |-> "", viol |-> <<>>,
    fuel |-> fuel, choice |-> choice, steps |-> 0, c01 |-> FALSE]
 
 Top(s) == s.frames[Len(s.frames)]
@@ -117,20 +117,19 @@ CheckClaimsOut(cfg, s, n) ==
   FlagClaims(s, RegClaimsBad(s, cfg.nodes[n].rout, w) \cup MemClaimsBad(s, cfg.nodes[n].mout, w))
 
 \* ------------------------------------------------------------- C02: live monitor
-\* kind of the node at which a register was (first, since its last definition) reported not live
-MarkKind(cfg, i) ==
-  LET n == cfg.nodes[i].node k == Kind(n) IN
-  IF k \in {"jump", "branch"} /\ \E f \in 1..Len(cfg.funcs) : cfg.funcs[f].label = n.lab
-    THEN k \o "-to-function-label" ELSE k
+\* programs in which a function entry is also the target of a plain jump or branch
+JumpsToFunctionEntry(cfg) ==
+  \E i \in 1..NN(cfg) :
+     LET n == cfg.nodes[i].node IN
+     Kind(n) \in {"jump", "branch"} /\ \E f \in 1..Len(cfg.funcs) : cfg.funcs[f].label = n.lab
 LiveBefore(cfg, s, reads) ==
   LET li == SeqSet(cfg.nodes[s.pc].live_in)
-      newly == { r \in Regs : r # 0 /\ r \notin li /\ ~s.dead[r] }
-      d1 == [r \in Regs |-> s.dead[r] \/ r \in newly]
-      m1 == [r \in Regs |-> IF r \in newly THEN MarkKind(cfg, s.pc) ELSE s.deadat[r]]
+      d1 == [r \in Regs |-> s.dead[r] \/ (r # 0 /\ r \notin li)]
       badreads == { r \in reads : r # 0 /\ d1[r] }
-      s1 == [s EXCEPT !.dead = d1, !.deadat = m1]
+      s1 == [s EXCEPT !.dead = d1]
   IN IF badreads = {} THEN s1
-     ELSE Flag(s1, "C02:dynamic:read-of-register-reported-dead:marked-at-" \o m1[CHOOSE r \in badreads : TRUE])
+     ELSE Flag(s1, "C02:dynamic:read-of-register-reported-dead:"
+                   \o (IF JumpsToFunctionEntry(cfg) THEN "program-jumps-to-a-function-entry" ELSE "ordinary-program"))
 Define(s, regs) == [s EXCEPT !.dead = [r \in Regs |-> IF r \in regs THEN FALSE ELSE @[r]]]
 
 \* ------------------------------------------------------------- C03: edge monitor
